@@ -332,3 +332,41 @@ pub fn runbc(f: &[&str]) -> String {
     let env = Env::parse(f[6]);
     in_child(timeout, move || by_width!(w, runbc_w, &backend, mode, &text, &env))
 }
+
+fn runfail_w<C: CellType>(backend: &str, level: u32, kth: i64, src: &str, env: &Env) -> String {
+    use std::sync::atomic::Ordering;
+    // build the executor first (compilation is not under test), then arm the failing allocator
+    macro_rules! go {
+        ($t:ty) => {
+            match <$t>::create(src, level) {
+                Ok(ex) => {
+                    crate::alloc::ZEROED_COUNT.store(0, Ordering::Relaxed);
+                    crate::alloc::FAIL_AT.store(kth, Ordering::Relaxed);
+                    crate::alloc::MODE.store(1, Ordering::Relaxed);
+                    let r = exec_with(&ex, Mode::Exec, env);
+                    crate::alloc::MODE.store(0, Ordering::Relaxed);
+                    r
+                }
+                Err(e) => format!("create-{}", err_string(&e)),
+            }
+        };
+    }
+    match backend {
+        "inplace" => go!(InplaceInterpreter<C>),
+        "ir" => go!(IrInterpreter<C>),
+        "bc" => go!(BcInterpreter<C>),
+        "jit" => go!(BaseJitCompiler<C>),
+        b => format!("ERR backend {b}"),
+    }
+}
+
+/// runfail|backend|w|level|kth|src-hex|env : the kth zeroed allocation during execution fails
+pub fn runfail(f: &[&str]) -> String {
+    let backend = f[0].to_string();
+    let w: u32 = f[1].parse().unwrap();
+    let level: u32 = f[2].parse().unwrap();
+    let kth: i64 = f[3].parse().unwrap();
+    let src = String::from_utf8(hex_bytes(f[4])).expect("utf8 source");
+    let env = Env::parse(f[5]);
+    in_child(3000, move || by_width!(w, runfail_w, &backend, level, kth, &src, &env))
+}
